@@ -464,7 +464,9 @@ def owner(unit, f):
             return ("C10", "C05", "C04")
         if "delivered_in_full" in sn or "one_response" in sn:
             return ("C05", "C04", "C02", "C03")
-        if "registered(" in sn or "is_bad_request" in sn or "response_bytes" in sn or "one_bad_request" in sn or "status_code==404" in sn:
+        if "is_bad_request" in sn or "one_bad_request" in sn:
+            return ("C05", "C04", "C10")       # the 400 answer: one complete response that carries the fixed headers
+        if "registered(" in sn or "response_bytes" in sn or "status_code==404" in sn:
             return ("C05", "C04")
     return None
 
